@@ -47,6 +47,9 @@ structure Cfg where
   /-- proposed repair of the legacy backend (C01): `Update` also purges system contracts whose
   storage became empty, as the new backend does -/
   legacyPurgeOnUpdate : Bool
+  /-- proposed repair of the legacy backend (C04): `removeDeclaredClasses` tolerates a class hash
+  that is listed twice in `DeclaredV0Classes` (a slice copied from the feeder), as the new backend does -/
+  legacyDedupDeclared : Bool
   /-- blocks per aggregated bloom filter (`core.NumBlocksPerFilter` = 8192) -/
   window : Nat
 deriving DecidableEq, Repr
@@ -281,17 +284,23 @@ def updateClassTrie (tr : Map Nat Nat) (b : Block) : Map Nat Nat :=
   Map.setAll tr1 b.diff.migrated
 
 /-- revert of the declared classes: those declared at block `n` are deleted (Sierra ones also
-from the class trie); a listed class that is unknown is an error -/
-def removeDeclared (n : Nat) (s : State) : List Nat → Except Err State
+from the class trie); a listed class that is unknown is an error. The new backend looks every class
+up on disk (`orig`: the batch's own deletions are not visible, so a hash listed twice is handled
+twice, harmlessly); the legacy backend looks it up in its transaction (`s.classes`: the second
+occurrence of a hash that was just deleted is "not found"). `tolerant` selects the first. -/
+def removeDeclared (tolerant : Bool) (n : Nat) (orig : Map Nat ClassRec) (s : State) : List Nat → Except Err State
   | [] => .ok s
   | c :: cs =>
-    match Map.get s.classes c with
+    match Map.get (if tolerant then orig else s.classes) c with
     | none => .error .classMissing
     | some r =>
       if r.declaredAt = n then
-        removeDeclared n { s with classes := Map.del s.classes c,
-                                   classTrie := if r.defn.sierra then Map.del s.classTrie c else s.classTrie } cs
-      else removeDeclared n s cs
+        removeDeclared tolerant n orig { s with classes := Map.del s.classes c,
+                                                classTrie := if r.defn.sierra then Map.del s.classTrie c else s.classTrie } cs
+      else removeDeclared tolerant n orig s cs
+
+/-- does `removeDeclaredClasses` tolerate a repeated class hash? -/
+def Cfg.dupTolerant (cfg : Cfg) : Bool := !cfg.legacy || cfg.legacyDedupDeclared
 
 /-- repair `removeImplicitClasses`: classes registered at block `n` for deployed contracts -/
 def removeImplicit (n : Nat) (s : State) : List Nat → State
@@ -364,8 +373,9 @@ def applyUpdate (cfg : Cfg) (b : Block) (s : State) : Except Err State := do
       { s2 with
         hStorage := Map.setAll s.hStorage (b.diff.storage.map (fun e => ((e.1, n), e.2))),
         hNonce := Map.setAll s.hNonce (b.diff.nonces.map (fun e => ((e.1, n), e.2))),
-        hClass := Map.setAll (Map.setAll s.hClass (b.diff.replaced.map (fun e => ((e.1, n), e.2))))
-                    (b.diff.deployed.map (fun e => ((e.1, n), e.2))) }
+        -- same order as the diff is applied (904a370): deployments, then replacements
+        hClass := Map.setAll (Map.setAll s.hClass (b.diff.deployed.map (fun e => ((e.1, n), e.2))))
+                    (b.diff.replaced.map (fun e => ((e.1, n), e.2))) }
   return s'
 
 /-- `State.Update`: verify the old root, apply, verify the new root. -/
@@ -406,7 +416,7 @@ def reverseDiff (cfg : Cfg) (n : Nat) (d : Diff) (s : State) : Except Err Diff :
 /-- class part of `State.Revert`: `removeDeclaredClasses` and `revertMigratedCasmClasses`
 (`casm` is the CASM metadata bucket as it is on disk) -/
 def revertClasses (cfg : Cfg) (n : Nat) (d : Diff) (casm : Map Nat CasmMeta) (s : State) : Except Err State := do
-  let s1 ← removeDeclared n s (d.declV0 ++ Map.keys d.declV1)
+  let s1 ← removeDeclared cfg.dupTolerant n s.classes s (d.declV0 ++ Map.keys d.declV1)
   let s1 := if cfg.removeImplicitClasses then removeImplicit n s1 (d.deployed.map (·.2)) else s1
   let tr ← unmigrateTrie casm s1.classTrie d.migrated
   return { s1 with classTrie := tr }
